@@ -196,6 +196,8 @@ type Walk struct {
 	Target func(ssa.Instruction) bool
 	// EdgeOK: return false to forbid leaving `from` through successor index succ (0 = true edge of an If).
 	EdgeOK func(from *ssa.BasicBlock, succ int) bool
+	// TargetEdge: the walk reports success when it is about to traverse this (feasible, allowed) edge.
+	TargetEdge func(from *ssa.BasicBlock, succ int) bool
 	// TargetEnv is like Target but also sees the boolean facts known on the path.
 	TargetEnv func(ssa.Instruction, Env) bool
 	NoEnv     bool
@@ -269,10 +271,89 @@ func (w *Walk) From(start Point, env Env) *Found {
 				env2 = enterBlock(b, succ, env2)
 			}
 			np := append(append([]int{}, it.path...), succ.Index)
+			if w.TargetEdge != nil && w.TargetEdge(b, si) {
+				return &Found{last, np}
+			}
 			queue = append(queue, qitem{wstate{Point{succ, 0}, env2}, np})
 		}
 	}
 	return nil
+}
+
+// canonOperand maps repeated loads of the same parameter-rooted field path (go/ssa does no CSE) to one representative
+// value, provided the function never stores to that path; lets `x.f == nil` and a later `x.f != nil` be correlated.
+var canonCache = map[*ssa.Function]map[string]ssa.Value{}
+
+func canonOperand(v ssa.Value) ssa.Value {
+	u, ok := v.(*ssa.UnOp)
+	if !ok || u.Op != token.MUL {
+		return v
+	}
+	fa, ok := u.X.(*ssa.FieldAddr)
+	if !ok {
+		return v
+	}
+	fn := u.Parent()
+	key := ""
+	var cur ssa.Value = fa
+	for depth := 0; depth < 6; depth++ {
+		switch x := cur.(type) {
+		case *ssa.FieldAddr:
+			key = fmt.Sprintf(".%d", x.Field) + key
+			cur = x.X
+			continue
+		case *ssa.UnOp:
+			if x.Op == token.MUL {
+				key = "*" + key
+				cur = x.X
+				continue
+			}
+		case *ssa.Parameter:
+			key = x.Name() + key
+			cur = nil
+		default:
+			return v
+		}
+		break
+	}
+	if cur != nil {
+		return v
+	}
+	m := canonCache[fn]
+	if m == nil {
+		m = map[string]ssa.Value{}
+		canonCache[fn] = m
+		// paths that are stored to are not canonicalised
+		Instrs(fn, func(i ssa.Instruction) {
+			if st, ok := i.(*ssa.Store); ok {
+				if _, isFA := st.Addr.(*ssa.FieldAddr); isFA {
+					m["<stores>"] = st.Addr
+				}
+			}
+		})
+	}
+	if _, hasStores := m["<stores>"]; hasStores {
+		// conservative: only canonicalise in functions without any field store through pointers
+		// (struct literals built on fresh allocations use FieldAddr on Alloc, which is fine)
+		safe := true
+		Instrs(fn, func(i ssa.Instruction) {
+			if st, ok := i.(*ssa.Store); ok {
+				if f2, isFA := st.Addr.(*ssa.FieldAddr); isFA {
+					if _, onAlloc := f2.X.(*ssa.Alloc); !onAlloc {
+						safe = false
+					}
+				}
+			}
+		})
+		if !safe {
+			return v
+		}
+	}
+	if rep, ok := m[key]; ok {
+		return rep
+	}
+	m[key] = v
+	return v
 }
 
 func evalBool(v ssa.Value, env Env) (val, known bool) {
@@ -281,6 +362,11 @@ func evalBool(v ssa.Value, env Env) (val, known bool) {
 	}
 	if b, ok := env[v]; ok {
 		return b, true
+	}
+	if x, trueMeansNil, ok := NilCheck(v); ok {
+		if isNil, k := env[canonOperand(x)]; k {
+			return isNil == trueMeansNil, true
+		}
 	}
 	if u, ok := v.(*ssa.UnOp); ok && u.Op == token.NOT {
 		if b, k := evalBool(u.X, env); k {
@@ -297,6 +383,11 @@ func refine(v ssa.Value, val bool, env Env) {
 	env[v] = val
 	if u, ok := v.(*ssa.UnOp); ok && u.Op == token.NOT {
 		refine(u.X, !val, env)
+	}
+	if x, trueMeansNil, ok := NilCheck(v); ok {
+		if _, isConst := x.(*ssa.Const); !isConst {
+			env[canonOperand(x)] = (val == trueMeansNil)
+		}
 	}
 }
 
@@ -683,16 +774,36 @@ func ReachableWithout(from Point, forbidden []IfEdge, target func(ssa.Instructio
 }
 
 
-// RetCase is one way a function returns: a Return instruction, and when its operands are Phis of the return block,
-// one incoming edge with the Phi operands resolved for that edge.
+// RetCase is one way a function returns: a Return instruction and, when its operands are Phis of the return block
+// (recursively: of the merge blocks feeding it), the chain of incoming edges with the Phi operands resolved.
 type RetCase struct {
 	Ret    *ssa.Return
-	Pred   *ssa.BasicBlock // nil when the return block has no Phi operands
+	Pred   *ssa.BasicBlock // deepest predecessor of the resolved edge chain; nil when no Phi was resolved
+	Succ   int             // successor index of Pred taken by this case
 	Values []ssa.Value
 }
 
-// Reach returns the instruction whose execution means "this case happens": the Return itself, or the terminator
-// of the predecessor block for an edge case.
+// ReachableOnlyVia reports whether every path from the entry to this return case passes one of the given edges.
+func (rc RetCase) ReachableOnlyVia(fn *ssa.Function, edges []IfEdge) bool {
+	if len(edges) == 0 {
+		return false
+	}
+	w := &Walk{EdgeOK: Forbid(edges)}
+	if rc.Pred == nil {
+		w.Target = func(i ssa.Instruction) bool { return i == ssa.Instruction(rc.Ret) }
+	} else {
+		// the case's own edge may itself be one of the required edges
+		for _, e := range edges {
+			if e.B == rc.Pred && e.Succ == rc.Succ {
+				return true
+			}
+		}
+		w.TargetEdge = func(b *ssa.BasicBlock, s int) bool { return b == rc.Pred && s == rc.Succ }
+	}
+	return w.From(Entry(fn), nil) == nil
+}
+
+// Reach returns an instruction whose execution is necessary for this case (the Return, or the terminator of Pred).
 func (rc RetCase) Reach() ssa.Instruction {
 	if rc.Pred == nil {
 		return rc.Ret
@@ -702,29 +813,38 @@ func (rc RetCase) Reach() ssa.Instruction {
 
 func ReturnCases(fn *ssa.Function) []RetCase {
 	var out []RetCase
-	for _, r := range Returns(fn) {
-		b := r.Block()
+	var expand func(r *ssa.Return, b *ssa.BasicBlock, vals []ssa.Value, pred *ssa.BasicBlock, succ int, depth int)
+	expand = func(r *ssa.Return, b *ssa.BasicBlock, vals []ssa.Value, pred *ssa.BasicBlock, succ int, depth int) {
 		hasPhi := false
-		for _, v := range r.Results {
+		for _, v := range vals {
 			if p, ok := v.(*ssa.Phi); ok && p.Block() == b {
 				hasPhi = true
 			}
 		}
-		if !hasPhi || len(b.Preds) < 2 {
-			out = append(out, RetCase{Ret: r, Values: r.Results})
-			continue
+		if !hasPhi || len(b.Preds) < 2 || depth > 3 {
+			out = append(out, RetCase{Ret: r, Pred: pred, Succ: succ, Values: vals})
+			return
 		}
-		for k, pred := range b.Preds {
-			vals := make([]ssa.Value, len(r.Results))
-			for i, v := range r.Results {
-				if p, ok := v.(*ssa.Phi); ok && p.Block() == b {
-					vals[i] = p.Edges[k]
+		for k, p := range b.Preds {
+			nv := make([]ssa.Value, len(vals))
+			for i, v := range vals {
+				if ph, ok := v.(*ssa.Phi); ok && ph.Block() == b {
+					nv[i] = ph.Edges[k]
 				} else {
-					vals[i] = v
+					nv[i] = v
 				}
 			}
-			out = append(out, RetCase{Ret: r, Pred: pred, Values: vals})
+			si := 0
+			for j, sc := range p.Succs {
+				if sc == b {
+					si = j
+				}
+			}
+			expand(r, p, nv, p, si, depth+1)
 		}
+	}
+	for _, r := range Returns(fn) {
+		expand(r, r.Block(), r.Results, nil, 0, 0)
 	}
 	return out
 }
